@@ -336,3 +336,12 @@ def m6_suffixes(ctx):
 
 
 RULES = [('M1', m1_formula), ('M2', m2_rate_owner), ('M3', m3_table), ('M4', m4_literals), ('M5', m5_data), ('G5', m6_suffixes)]
+
+
+def m6_unique_fields(ctx):
+    """M6 a pattern that names two fields alike loses one of the matched tokens (shared rule)"""
+    from ..common import unique_field_names
+    unique_field_names(ctx, 'M6', ('convert_money',), floor=2)
+
+
+RULES.append(('M6', m6_unique_fields))
